@@ -10,7 +10,12 @@ def run(ctx):
     R = ctx.report
     R.explanation = "CALL-R on the pre-transform coroutine bodies: the source is only read through AsyncReadExt::read_exact on futures' BufReader."
     R.not_decided = ["all interleavings of Poll::Pending (delegated to futures' ReadExact, trusted to resume where it stopped)", "cancel safety (disclaimed by the crate)"]
-    lib_call.check_read_exact(ctx, FUNCS, r"AsyncReadExt$", r"^futures(_util)?::io::BufReader<")
+    # every hand-written function / closure / coroutine body of the module (helpers introduced by a refactoring included)
+    funcs = sorted(p for p, b in ctx.facts.bodies.items() if p.startswith("stream::") and not b["derived"] and "::tests::" not in p)
+    for a in FUNCS:
+        if ctx.facts.body(a) is None and a.endswith("next_message_slice"):
+            funcs.append(a)  # reported as ANCHOR-MISSING by the callee
+    lib_call.check_read_exact(ctx, funcs, r"AsyncReadExt$", r"^futures(_util)?::io::BufReader<")
     R.floor("CALL-R", 2)
     try:
         from rules import lib_reader
